@@ -976,6 +976,7 @@ func (g *FnGen) runeStr(x string) string {
 			ax = fmt.Sprintf("(forall ((rs!x Int)) (! (and (= (rune-str-inv (rune-str rs!x)) rs!x) (<= 1 (slen (rune-str rs!x))) (=> (and (<= 0 rs!x) (< rs!x 128)) (and (= (slen (rune-str rs!x)) 1) (= (sat (rune-str rs!x) 0) rs!x)))) :pattern ((rune-str rs!x))))")
 		}
 		g.assumes = append([]string{ax}, g.assumes...)
+		g.shiftTags(1)
 		for _, o := range g.obls {
 			o.nAssume++
 		}
